@@ -4,6 +4,7 @@ import importlib
 import json
 import os
 import sys
+import threading
 import traceback
 
 from lib import vcore
@@ -20,10 +21,27 @@ def main():
     mod = importlib.import_module(f"harness.{prop.lower()}")
     run = vcore.Run(prop, a.tier, seed)
     run.replay_mode = bool(a.replay)
+    # watchdog: a check must end with a verdict. On the unchanged tree a quick check takes 0.5-3 minutes; a change to the
+    # code under test can make the implementation (or a search of the harness) loop. When the limit is hit the findings
+    # collected so far are reported together with a "timeout" finding (no-failing-input-found) and the exit code is 1.
+    limit = int(os.environ.get("VERIF_WATCHDOG_S", "2400" if a.tier == "quick" else "21600"))
+
+    def fire():
+        try:
+            run.find("timeout", f"the check did not finish within {limit} s (minutes on the unchanged tree): the code under "
+                     "test or a search of the harness does not terminate", {"limit_s": limit, "tier": a.tier}, concrete=False)
+            run.finish(rule="stopped by the watchdog")
+        finally:
+            sys.stdout.flush()
+            os._exit(1)
+
+    timer = threading.Timer(limit, fire)
+    timer.daemon = True
+    timer.start()
     try:
         vcore.ensure_static_build(getattr(mod, "STATIC", None))
         if a.tier == "thorough" and not a.replay and getattr(mod, "STATIC", None):
-            props = [t for t in mod.STATIC if t.endswith("Props")] or list(mod.STATIC)
+            props = [t for t in mod.STATIC if "Props" in t.split("/")[-1]] or list(mod.STATIC)
             okc, summ = vcore.coqchk(props)
             run.oblige("coqchk:" + ",".join(props), okc, "coqchk")
             run.notes["coqchk"] = summ
